@@ -1,5 +1,6 @@
 import Driver.Sim
 import Driver.Lib
+import Driver.Graph
 /-! Line-protocol driver: one JSON request per input line, one JSON reply per output line. -/
 open Lean
 namespace Pyrtl.Drv
@@ -10,6 +11,8 @@ def dispatch (j : Json) : Except String Json := do
   | "ping" => pure (Json.mkObj [("ok", .bool true)])
   | "sim" => cmdSim j
   | "basic" => cmdBasic j
+  | "sanity" => cmdSanity j
+  | "topo" => cmdTopo j
   | _ => throw s!"unknown cmd {cmd}"
 
 partial def loop (hin hout : IO.FS.Stream) : IO Unit := do
